@@ -821,7 +821,7 @@ func runC01(c *Ctx) {
 	r := c.R
 	r.Assume("'never none' is restated as bounded progress: a reply is lost iff every backend attempt was answered or dropped and the same client completed 2x50 further OPTIONS round trips with nothing moving")
 	r.Assume("a request counts only while its client connection stays open; EVENT frames on stream -1 are not replies")
-	r.Require("requests_answered", "death_orders_run", "kill_under_fire_runs", "proxy_closed_connections_with_requests_in_flight", "reprepare_storm_requests", "slow_reader_requests")
+	r.Require("requests_answered", "death_orders_run", "kill_under_fire_runs", "proxy_closed_connections_with_requests_in_flight", "reprepare_storm_requests", "slow_reader_requests", "local_answers_requests")
 	if os.Getenv("VERIF_C01_ONLY") != "" {
 		// debugging aid
 	}
@@ -931,6 +931,13 @@ func runC01(c *Ctx) {
 		k := next()
 		if c.Mine(k) {
 			reprepareStorm(c, j)
+		}
+	}
+	// 3f. the requests the proxy answers itself, pipelined and repeated
+	for j := 0; j < c.Pick(4, 160); j++ {
+		k := next()
+		if c.Mine(k) {
+			localAnswers(c, j)
 		}
 	}
 	// 3e. a client that pipelines thousands of requests and reads late
